@@ -154,3 +154,36 @@ Proof. exact assemble_user_offsets_ok. Qed.
 Print Assumptions C03_user_bus_lookup.
 Print Assumptions C03_user_offset_physical.
 Print Assumptions C03_user_offsets_oracle.
+
+(** Run addresses in RAM (the oracle's [ram_runs_ok], added after seed C03-16): behind an ordinary node whose run
+    address lies in RAM the next node runs at that address plus the bytes emitted — the model's own trace satisfies
+    the clause under either built-in mapping (start address on a built-in bus, as [resolver_init] makes it; or any
+    program that begins with a [*=]) and under any bus built from [.map] declarations. *)
+From A816 Require Import Proofs.UserRamRun.
+Theorem C03_ram_runs_oracle : forall w high high' r ns o,
+  get_bus w r = Ok (builtin high) -> a_bus (r_reloc r) = builtin high' ->
+  assemble_nodes w r ns = Ok o ->
+  exists r1 addrs tr,
+    resolve_labels w r ns = Ok (r1, addrs) /\
+    model_trace w (emit_start r1) ns addrs = Ok (tr, r_pc (o_final o)) /\
+    ram_runs_ok (is_ram high) tr = true.
+Proof. exact assemble_ram_runs_ok_builtin_start. Qed.
+Theorem C03_ram_runs_oracle_codepos : forall w high r e fi ns o,
+  get_bus w r = Ok (builtin high) -> assemble_nodes w r (NCodePos e fi :: ns) = Ok o ->
+  exists r1 addrs tr,
+    resolve_labels w r (NCodePos e fi :: ns) = Ok (r1, addrs) /\
+    model_trace w (emit_start r1) (NCodePos e fi :: ns) addrs = Ok (tr, r_pc (o_final o)) /\
+    ram_runs_ok (is_ram high) tr = true.
+Proof. exact assemble_ram_runs_ok_codepos. Qed.
+Theorem C03_user_ram_runs_oracle : forall w ds b r e fi ns o,
+  NoDup (ids_of ds) -> bus_of ds = Ok b -> get_bus w r = Ok b ->
+  assemble_nodes w r (NCodePos e fi :: ns) = Ok o ->
+  exists r1 addrs tr,
+    resolve_labels w r (NCodePos e fi :: ns) = Ok (r1, addrs) /\
+    model_trace w (emit_start r1) (NCodePos e fi :: ns) addrs = Ok (tr, r_pc (o_final o)) /\
+    ram_runs_ok (user_is_ram (ranges_of ds)) tr = true.
+Proof. exact assemble_user_ram_runs_ok. Qed.
+
+Print Assumptions C03_ram_runs_oracle.
+Print Assumptions C03_ram_runs_oracle_codepos.
+Print Assumptions C03_user_ram_runs_oracle.
